@@ -94,7 +94,9 @@ pub fn exec(c: &[i64]) -> Vec<i64> {
         let frame = mk_frame(id, &data);
         let mut rx = Vec::new();
         let res = unit.try_recv(&mut ctx, &frame, &mut rx);
-        let mut out = vec![err_code(&res), ctx.rx_count() as i64];
+        #[cfg(has_rx_count)] let credited = ctx.rx_count() as i64;
+        #[cfg(not(has_rx_count))] let credited = -7i64;
+        let mut out = vec![err_code(&res), credited];
         match ctx.rx_last_message() { None => out.push(0), Some(m) => {
             out.push(1);
             let mut a = Vec::new(); enc_object(&m.object, kind, da, &data, &mut a);
@@ -134,6 +136,11 @@ pub fn gen_mode(o: &Opts, mode: u32, sink: &mut dyn FnMut(Vec<i64>, String)) {
     let mut rng = Rng::new(o.seed, 60 + mode as u64);
     let typical = |pgn: u32, rng: &mut Rng| -> Vec<i64> {
         match pgn {
+            // software identification: the vecraft triple, or - one time in two - J1939-71 style text: a field count and
+            // '*'-delimited ASCII fields in every arrangement (count above / below the fields present, a delimiter in the last byte,
+            // empty fields, no padding at all)
+            65242 if rng.chance(1, 2) => { let mut d = vec![rng.below(6) as i64];
+                for _ in 0..7 { d.push(match rng.below(6) { 0 | 1 => 42, 2 => 255, _ => *rng.pick(&[0x31i64, 0x2e, 0x32, 0x61, 0x62, 0x20]) }); } d }
             65242 => vec![1, 3, 2, 1, 42, 255, 255, 255],
             65288 => vec![*rng.pick(&[0x14i64, 0x16, 0xfa, 0xfb, 0x15, 0xff]), 255, rng.below(2) as i64, 255, 1, 2, 3, 4],
             // well-formed vecraft configuration messages ('Z','C' header): motion config (lock / reset
